@@ -16,6 +16,9 @@ CHECKS = {
 CHECKS['C14'] = dict(technique='model-based runtime monitor: random operation histories checked step by step against a shadow dictionary, under ASan/UBSan and valgrind',
              text='Seeded random histories of array creation, additions, crystal files (well-formed, corrupt, duplicate, truncated), listings, lookups, copies and frees are executed against the real library; after every step the observable state is compared with a model dictionary, on user arrays crossing their initial capacity and on the built-in array up to its fixed capacity.',
              note='Trusted: the shadow model in harness/histmon.c; files use the canonical layout; truncated files are only held to the error contract.', ref='2 C14')
+CHECKS['C16'] = dict(technique='history-based runtime monitor: fresh-process baseline vs random call histories, writable-segment hashing and process-state probes',
+             text='Each sampled query is executed as the only call of a fresh process and then re-observed thousands of times inside seeded random histories of the whole API (failing calls, parser, catalogues, crystal copies, with/without XRayInit, under a comma-decimal locale): every occurrence must be bit-identical; the library\'s writable memory is hashed before and after each history, and locale, cwd, stdout/stderr and earlier error objects are re-checked.',
+             note='Trusted: harness/puremon.c, dl_iterate_phdr segment enumeration, library linked -z now; explicit built-in insertions are exercised separately to prove the hash sees writes.', ref='2 C16')
 NOT_APPLICABLE = [
  dict(property_id='C20', reason='Fortran/Pascal/Cython/IDL/SWIG interface files cannot be compiled, loaded or executed in this sandbox (no gfortran, fpc, Cython, swig, IDL), so there is no execution for a runtime monitor to observe; comparing their text is static analysis, a different technique. The executable slices (Java constants, C++ header, exported symbols) are monitored as by-products of C19/C18/C03.'),
 ]
